@@ -31,6 +31,9 @@
 //!    success response and an error response of every code 300..=699 x {NONCE, REALM, ALTERNATE-SERVER,
 //!    FINGERPRINT present or not} x {no integrity, valid SHA-1, valid SHA-256, SHA-1 under another key,
 //!    corrupted SHA-1}: delivered and its source validated exactly when the integrity is valid;
+//!  * lifetime totals (C18 C15 C05): 1 / 255..257 / 65 535..65 537 / 70 001 peers heard from, answered
+//!    requests to distinct destinations, or answered requests to one peer in a single agent, then requests
+//!    to three new addresses and two of the first: destinations, peer_address(), retransmissions, validated set;
 //!  * purity (C20): each history is run three times on fresh threads, the third alongside unrelated
 //!    agents; the complete reply transcripts must be identical.
 use super::*;
@@ -411,6 +414,100 @@ fn contents(sc: &Scenario) -> Outcome {
     out
 }
 
+/// Lifetime totals beyond 2^16 in one agent: `kind` 0 = `n` distinct peers heard from (indications), 1 =
+/// `n` distinct destinations of requests that were each answered at once, 2 = `n` transactions with one
+/// peer in sequence; then requests to three new addresses and one of the first ones, served through
+/// their schedule.  Every transmission goes where it was sent, peer_address() says so, exactly the peers
+/// that validated themselves are validated.
+fn lifetime(sc: &Scenario) -> Outcome {
+    let base = base_instant();
+    let t = if sc.tcp { TransportType::Tcp } else { TransportType::Udp };
+    let mut out = Outcome { breaches: vec![], transcript: vec![] };
+    let mut a = StunAgent::builder(t, local_addr()).build();
+    let sw = Software::new("life").unwrap();
+    for k in 0..sc.n {
+        let peer = saddr(2, k);
+        match sc.kind {
+            0 => {
+                let bytes = plain_wire(1, stid(2_000_000 + k));
+                let m = Message::from_bytes(&bytes).unwrap();
+                if !matches!(a.handle_stun(m, peer), HandleStunReply::IncomingStun(_)) {
+                    out.breaches.push(("C05", "lifetime/indication-not-handed-over".into(), format!("indication #{k} of one agent's life was not handed over"), "IncomingStun".into(), "other".into()));
+                    return out;
+                }
+            }
+            _ => {
+                let dest = if sc.kind == 1 { peer } else { saddr(2, 0) };
+                let idv = stid(2_000_000 + k);
+                let mut rq = Message::builder(MessageType::from_class_method(MessageClass::Request, BINDING), idv.into());
+                rq.add_attribute(&sw).unwrap();
+                match a.send(rq, dest, base) {
+                    Ok(tr) if tr.to == dest => {}
+                    other => {
+                        out.breaches.push(("C18", "lifetime/destination".into(), format!("request #{k} of one agent's life (to {dest})"), format!("sent to {dest}"), format!("{:?}", other.map(|t| t.to))));
+                        return out;
+                    }
+                }
+                let bytes = plain_wire(2, idv);
+                let m = Message::from_bytes(&bytes).unwrap();
+                if !matches!(a.handle_stun(m, dest), HandleStunReply::StunResponse(_)) {
+                    out.breaches.push(("C05", "lifetime/response-not-delivered".into(), format!("the response to request #{k} of one agent's life was not delivered"), "StunResponse".into(), "other".into()));
+                    return out;
+                }
+            }
+        }
+    }
+    // afterwards: requests to new addresses and to the very first one
+    let targets = [saddr(0, 1), saddr(2, sc.n + 5), saddr(1, 7), saddr(2, 0), saddr(2, 1)];
+    let mut ids = Vec::new();
+    for (j, dest) in targets.iter().enumerate() {
+        let idv = stid(3_000_000 + j);
+        let mut rq = Message::builder(MessageType::from_class_method(MessageClass::Request, BINDING), idv.into());
+        rq.add_attribute(&sw).unwrap();
+        match a.send(rq, *dest, base) {
+            Ok(tr) if tr.to == *dest && tr.from == local_addr() => out.transcript.push(h(&tr.data())),
+            other => {
+                out.breaches.push(("C18", "lifetime/destination".into(), format!("a request to {dest} after {} {} in this agent's life", sc.n, ["peers heard from", "answered requests to distinct destinations", "answered requests to one peer"][sc.kind as usize % 3]), format!("sent to {dest}"), format!("{:?}", other.map(|t| (t.from, t.to)))));
+                return out;
+            }
+        }
+        let pa = a.request_transaction(idv.into()).map(|r| r.peer_address());
+        if pa != Some(*dest) {
+            out.breaches.push(("C18", "lifetime/peer-address".into(), format!("peer_address() of a request to {dest} after {} earlier peers / requests", sc.n), format!("{dest}"), format!("{pa:?}")));
+            return out;
+        }
+        ids.push((idv, *dest));
+    }
+    let mut now = base;
+    for _ in 0..60 {
+        match a.poll(now) {
+            StunAgentPollRet::WaitUntil(i) => {
+                if i <= now {
+                    break;
+                }
+                out.transcript.push(h(&(i - base)));
+                now = i;
+            }
+            StunAgentPollRet::SendData(tr) => {
+                let want = ids.iter().find(|(idv, _)| Message::from_bytes(tr.data()).map(|m| u128::from(m.transaction_id()) == *idv).unwrap_or(false)).map(|(_, d)| *d);
+                if want != Some(tr.to) {
+                    out.breaches.push(("C18", "lifetime/retransmission-destination".into(), format!("a retransmission after {} earlier peers / requests", sc.n), format!("{want:?}"), format!("{}", tr.to)));
+                    return out;
+                }
+            }
+            StunAgentPollRet::TransactionTimedOut(_) | StunAgentPollRet::TransactionCancelled(_) => {}
+        }
+    }
+    // validated: kind 0 every peer heard from, kind 1 / 2 every destination that answered; nobody else
+    for (addr, want) in [(saddr(2, 0), true), (saddr(2, sc.n - 1), sc.kind != 2 || sc.n == 1), (saddr(2, sc.n / 2), sc.kind != 2 || sc.n / 2 == 0), (saddr(2, sc.n + 5), false), (saddr(0, 1), false), (saddr(1, 7), false)] {
+        if a.is_validated_peer(addr) != want {
+            out.breaches.push(("C15", "lifetime/validated".into(), format!("is_validated_peer({addr}) after {} peers / requests in this agent's life", sc.n), want.to_string(), (!want).to_string()));
+            return out;
+        }
+    }
+    out
+}
+
 /// Requests of every serialised size (block `n` covers 64 value lengths; `via` 0 = one attribute holding
 /// the whole value, 1 = the same number of bytes as value-less attributes + one short one; `kind` 1 =
 /// the top of the size range).
@@ -537,6 +634,8 @@ fn responses(sc: &Scenario) -> Outcome {
                     let l = m.len();
                     m[l - 7] ^= 0x04;
                 }
+                // 10 + n: MESSAGE-INTEGRITY-SHA256 under the right key declared with n bytes (0..=32)
+                v if v >= 10 => wire::append_mi256(&mut m, &theirs.key(), (v - 10) as usize),
                 _ => {}
             }
             if mask & 8 != 0 {
@@ -550,8 +649,9 @@ fn responses(sc: &Scenario) -> Outcome {
             let validated = a.is_validated_peer(dest);
             let outstanding = a.request_transaction(idv.into()).is_some();
             out.transcript.push(h(&(delivered, validated, outstanding)));
-            let want = matches!(sc.via, 1 | 2);
-            let what = format!("{} response{} with {}{}{}{}{} to a request authenticated under {} credentials", if code == 0 { "a success".to_string() } else { format!("a {code} error") }, "", ["no integrity", "a valid MESSAGE-INTEGRITY", "a valid MESSAGE-INTEGRITY-SHA256", "a MESSAGE-INTEGRITY computed with another key", "a corrupted MESSAGE-INTEGRITY"][sc.via as usize % 5], if mask & 1 != 0 { " + NONCE" } else { "" }, if mask & 2 != 0 { " + REALM" } else { "" }, if mask & 4 != 0 { " + ALTERNATE-SERVER" } else { "" }, if mask & 8 != 0 { " + FINGERPRINT" } else { "" }, if sc.kind == 0 { "short-term" } else { "long-term" });
+            let want = matches!(sc.via, 1 | 2 | 26 | 30 | 34 | 38 | 42);
+            let integ = if sc.via >= 10 { format!("a MESSAGE-INTEGRITY-SHA256 of {} bytes under the right key", sc.via - 10) } else { ["no integrity", "a valid MESSAGE-INTEGRITY", "a valid MESSAGE-INTEGRITY-SHA256", "a MESSAGE-INTEGRITY computed with another key", "a corrupted MESSAGE-INTEGRITY"][sc.via as usize % 5].to_string() };
+            let what = format!("{} response{} with {}{}{}{}{} to a request authenticated under {} credentials", if code == 0 { "a success".to_string() } else { format!("a {code} error") }, "", integ, if mask & 1 != 0 { " + NONCE" } else { "" }, if mask & 2 != 0 { " + REALM" } else { "" }, if mask & 4 != 0 { " + ALTERNATE-SERVER" } else { "" }, if mask & 8 != 0 { " + FINGERPRINT" } else { "" }, if sc.kind == 0 { "short-term" } else { "long-term" });
             // C15: the source is validated exactly when the response was delivered (whether or not it
             // should have been delivered is C07's / C05's question, asked next)
             if validated != delivered {
@@ -561,6 +661,17 @@ fn responses(sc: &Scenario) -> Outcome {
             if delivered != want {
                 out.breaches.push((if want { "C05" } else { "C07" }, if want { "responses/authentic-response-dropped".into() } else { "responses/unauthenticated-response-delivered".into() }, what, format!("delivered: {want}"), format!("delivered: {delivered}")));
                 return out;
+            }
+            if !want {
+                // a dropped response neither cancels nor delays: the first retransmission (the time-out
+                // over TCP) is still due where it was
+                let due = base + Duration::from_millis(if sc.tcp { 39_500 } else { 500 });
+                let got = a.poll(base);
+                let ok = matches!(&got, StunAgentPollRet::WaitUntil(i) if *i == due);
+                if !ok {
+                    out.breaches.push(("C07", "responses/dropped-response-changes-schedule".into(), format!("{what}: after the response was dropped, the next poll"), format!("WaitUntil(send + {} ms)", if sc.tcp { 39_500 } else { 500 }), format!("{got:?}").chars().take(160).collect()));
+                    return out;
+                }
             }
             if outstanding == want {
                 out.breaches.push(("C05", "responses/outstanding".into(), format!("{what}: the request stays outstanding exactly when the response is dropped"), format!("outstanding: {}", !want), format!("outstanding: {outstanding}")));
@@ -720,6 +831,29 @@ fn fractional(sc: &Scenario) -> Outcome {
     out
 }
 
+/// The scenarios of the thread-teardown probe (small ones of every family that has a transcript).
+pub fn teardown_scenarios() -> Vec<Scenario> {
+    let mut v = Vec::new();
+    for tcp in [false, true] {
+        v.push(Scenario { family: "tx".into(), tcp, kind: 4, n: 3, via: 1, mix: 1, noise: false });
+        v.push(Scenario { family: "tx".into(), tcp, kind: 5, n: 17, via: 0, mix: 0, noise: false });
+        v.push(Scenario { family: "peers".into(), tcp, kind: 4, n: 17, via: 2, mix: 0, noise: false });
+        v.push(Scenario { family: "peers".into(), tcp, kind: 0, n: 3, via: 0, mix: 0, noise: false });
+        v.push(Scenario { family: "sizes".into(), tcp, kind: 0, n: 3, via: 0, mix: 0, noise: false });
+        v.push(Scenario { family: "responses".into(), tcp, kind: 1, n: 2, via: 1, mix: 0, noise: false });
+    }
+    v
+}
+
+pub fn run_scenario_unguarded(sc: &Scenario) -> Outcome {
+    match sc.family.as_str() {
+        "peers" => peers(sc),
+        "sizes" => sizes(sc),
+        "responses" => responses(sc),
+        _ => transactions(sc),
+    }
+}
+
 pub fn run_scenario(sc: &Scenario) -> Outcome {
     match guarded(|| match sc.family.as_str() {
         "peers" => peers(sc),
@@ -729,6 +863,7 @@ pub fn run_scenario(sc: &Scenario) -> Outcome {
         "fractional" => fractional(sc),
         "sizes" => sizes(sc),
         "responses" => responses(sc),
+        "lifetime" => lifetime(sc),
         _ => transactions(sc),
     }) {
         Ok(o) => o,
@@ -1010,6 +1145,8 @@ enum Ambient {
     ClockStep(u64),
     /// an environment variable reads as this value (`None`: unset)
     Env(String, Option<&'static str>),
+    /// a tracing subscriber with this maximum level (index into model::LEVELS) is the thread's dispatcher
+    Tracing(usize),
 }
 
 fn on_fresh_thread(sc: Scenario) -> Outcome {
@@ -1026,6 +1163,10 @@ fn on_fresh_thread_in(sc: Scenario, amb: Ambient) -> Outcome {
                 Ambient::Plain => {}
                 Ambient::ClockStep(secs) => crate::ambient::clock_step(Duration::from_secs(*secs)),
                 Ambient::Env(name, value) => crate::ambient::env_override(name, *value),
+                Ambient::Tracing(l) => {
+                    let d = super::model::sink_dispatch(super::model::LEVELS[*l]);
+                    return tracing::dispatcher::with_default(&d, || run_scenario(&sc));
+                }
             }
             run_scenario(&sc)
         })
@@ -1046,6 +1187,19 @@ pub fn judge(prop: &str, sc: &Scenario, acc: &mut Acc) {
     let o = on_fresh_thread(sc.clone());
     for (p, clause, what, exp, obs) in &o.breaches {
         acc.violation(Violation::new(p, clause, what.clone(), exp.clone(), obs.clone(), replay_value(sc)));
+    }
+    // small histories also under a tracing subscriber of every maximum level: the same breaches (none)
+    // and the same replies
+    if sc.n <= 300 {
+        for l in 0..super::model::LEVELS.len() {
+            let ol = on_fresh_thread_in(sc.clone(), Ambient::Tracing(l));
+            for (p, clause, what, exp, obs) in &ol.breaches {
+                acc.violation(Violation::new(p, &format!("{clause}/under-tracing"), format!("{what} (under a tracing subscriber with maximum level {})", super::model::LEVELS[l]), exp.clone(), obs.clone(), replay_value(sc)));
+            }
+            if ol.breaches.is_empty() && o.breaches.is_empty() && ol.transcript != o.transcript {
+                acc.violation(Violation::new(prop, "scale/replies-depend-on-tracing-level", format!("the same long history gives different replies under a tracing subscriber with maximum level {}", super::model::LEVELS[l]), "identical reply transcripts".to_string(), "different transcripts".to_string(), replay_value(sc)));
+            }
+        }
     }
     if prop == "C20" {
         let o2 = on_fresh_thread(sc.clone());
@@ -1077,6 +1231,7 @@ pub fn judge(prop: &str, sc: &Scenario, acc: &mut Acc) {
         "phase" => "phase experiment: sub-microsecond offsets between calls",
         "fractional" => "fractional configuration: durations that are not whole milliseconds",
         "sizes" => "message sizes: 64 request sizes served to time-out",
+        "lifetime" => "lifetime totals: tens of thousands of peers / requests in one agent, then new requests",
         "responses" => "responses to an authenticated request: 50 error codes x attribute sets",
         _ => "long history: many concurrent requests",
     });
@@ -1160,6 +1315,15 @@ pub fn scenarios(prop: &str, thorough: bool) -> Vec<Scenario> {
             v.push(Scenario { family: "sizes".into(), tcp, kind: 1, n: 0, via: 0, mix: 0, noise: false });
         }
     }
+    if matches!(prop, "C18" | "C15" | "C05") {
+        for tcp in [false, true] {
+            for kind in 0..3u8 {
+                for n in [1usize, 255, 256, 257, 65_535, 65_536, 65_537, 70_001] {
+                    v.push(Scenario { family: "lifetime".into(), tcp, kind, n, via: 0, mix: 0, noise: false });
+                }
+            }
+        }
+    }
     if matches!(prop, "C15" | "C07" | "C05") {
         for tcp in [false, true] {
             for kind in [0u8, 1] {
@@ -1167,6 +1331,12 @@ pub fn scenarios(prop: &str, thorough: bool) -> Vec<Scenario> {
                     for via in 0..5u8 {
                         for mix in [0u8, 1] {
                             v.push(Scenario { family: "responses".into(), tcp, kind, n: block, via, mix, noise: false });
+                        }
+                    }
+                    // MESSAGE-INTEGRITY-SHA256 of every declared length 0..=32 (codes 400..=449 and success)
+                    if block == 2 || block == 8 {
+                        for n in 0..=32u8 {
+                            v.push(Scenario { family: "responses".into(), tcp, kind, n: block, via: 10 + n, mix: 0, noise: false });
                         }
                     }
                 }
